@@ -421,7 +421,24 @@ def size_only_feeds_claims(chk, rule, prog):
         chk.ob(rule, "use of source_size at %s" % u.loc(), ok, u.loc(), fn=f.name, key="ssz:%d" % u.line,
                detail="" if ok else "source_size is used by %r, not only as the 'provided' argument of claim_bytes" % u)
     c = prog.fn(claim_helper(prog))
-    pi = c.param_index("provided")
+    # which parameter of the claim routine is "what the caller's buffer holds": the one the decoder's source_size arrives at
+    pi = None
+    work_, seen2_ = [(f, si)], set()
+    while work_ and pi is None:
+        g_, j_ = work_.pop()
+        if (g_.name, j_) in seen2_:
+            continue
+        seen2_.add((g_.name, j_))
+        for u_ in g_.users(Arg(g_, j_)):
+            if u_.op == "call" and u_.callee in prog.funcs:
+                for k_, o_ in enumerate(u_.operands):
+                    if isinstance(o_, Arg) and o_.i == j_:
+                        if u_.callee == c.name:
+                            pi = k_
+                        else:
+                            work_.append((prog.funcs[u_.callee], k_))
+    if pi is None:
+        raise AnalysisBroken("%s: cannot tell which parameter receives the buffer length" % c.name)
     chain = c.users(Arg(c, pi))
     ok = len(chain) == 1 and chain[0].op == "sub"
     if ok:
